@@ -43,9 +43,20 @@ def main():
                 print(b.log[-3000:])
                 print("lean build failed")
                 sys.exit(2)
-            mod.replay(ctx, obj)
+            if getattr(mod, "REPLAY_BY_SEED", False):
+                # histories / invocation sets are a deterministic function of (seed, tier): the replay re-runs
+                # the recorded run and looks for the recorded signature among what it reports
+                rseed, rtier = int(obj.get("seed", seed)), obj.get("tier", args.tier)
+                print(f"replay of {prop} by re-running seed {rseed}, tier {rtier}; recorded failure: {obj.get('key')}: {obj.get('what')}")
+                ctx = core.Ctx(prop, rtier, rseed, mod.LEVEL)
+                mod.run(ctx)
+                if ctx.violations and not any(k == obj.get("key") for k, _ in ctx.violations):
+                    print(f"replay: the recorded failure {obj.get('key')} was not reproduced, but other violations were (above)")
+            else:
+                mod.replay(ctx, obj)
             if not ctx.violations:
                 print(f"replay: no violation reproduced for {prop}")
+            sys.exit(1 if ctx.violations else 0)
         else:
             r = mod.run(ctx)
             if r == "infra":
